@@ -26,6 +26,7 @@ inductive Leaf where
   | bool (b : Bool)
   | int (i : Int)
   | str (s : String)
+  | obj (s : String)        -- any other object (`json.dumps` cannot encode it); `s` = its `str()`
   deriving DecidableEq, Repr
 
 /-- a context value: a scalar or a dictionary (slot vector) -/
@@ -68,6 +69,7 @@ def pyStr : Leaf → String
   | .bool false => "False"
   | .int i => toString i
   | .str s => s
+  | .obj s => s
 
 /-- Python `s.split('.')` on the characters of `s` -/
 def splitDotsC : List Char → List (List Char)
@@ -107,15 +109,40 @@ def contains (d : Slots) (s : String) : Bool :=
 
 /-! ## `lena.context.get_recursively` without default (functions.py:239-332) -/
 
-/-- the key argument: a dot-separated string (empty components skipped) or a list of strings -/
+/-- what ends a key given as a dictionary `{"a": {"b": X}}`: `X` is empty or falsy (`stop`), a truthy
+non-dictionary (`key`: a string, or `none` for a value that is no string and hence no key of a context),
+or a dictionary with more than one key (`multi`) -/
+inductive DictTail where
+  | stop
+  | key (s : Option String)
+  | multi
+  deriving Repr
+
+/-- the key argument: a dot-separated string (empty components skipped), a list of strings, a list with
+an item that is not a string (`badList`), or a dictionary with one key at each level -/
 inductive KeyArg where
   | str (s : String)
   | list (ks : List String)
+  | badList
+  | dict (ks : List String) (tail : DictTail)
   deriving Repr
 
-def KeyArg.keys : KeyArg → List String
-  | .str s => (splitDots s).filter (· ≠ "")
-  | .list ks => ks
+/-- the list of simple keys `get_recursively` computes from its `keys` argument (lines 288-321) -/
+inductive KeysRes where
+  | keys (ks : List String)
+  | never                 -- the last key is no string: it is in no context (`LenaKeyError` later)
+  | valueError            -- "keys must have exactly one key at each level"
+  | typeError             -- "all simple keys must be strings"
+  deriving DecidableEq, Repr
+
+def KeyArg.resolve : KeyArg → KeysRes
+  | .str s => .keys ((splitDots s).filter (· ≠ ""))
+  | .list ks => .keys ks
+  | .badList => .typeError
+  | .dict ks .stop => .keys ks
+  | .dict ks (.key (some s)) => .keys (ks ++ [s])
+  | .dict _ (.key none) => .never
+  | .dict _ .multi => .valueError
 
 /-- `none` = `LenaKeyError`.  `d` is a dictionary (the caller passes `get_context(value)`). -/
 def getRecGo : Slots → List String → Option Val
@@ -126,7 +153,23 @@ def getRecGo : Slots → List String → Option Val
     | some (.dict l) => getRecGo l rest
     | _ => none
 
-def getRecursively (d : Slots) (key : KeyArg) : Option Val := getRecGo names d key.keys
+/-- outcome of `get_recursively(d, keys)` without default -/
+inductive GetRes where
+  | found (v : Val)
+  | keyError
+  | valueError
+  | typeError
+  deriving Repr
+
+def getRecursively (d : Slots) (key : KeyArg) : GetRes :=
+  match key.resolve with
+  | .keys ks =>
+    match getRecGo names d ks with
+    | some v => .found v
+    | none => .keyError
+  | .never => .keyError
+  | .valueError => .valueError
+  | .typeError => .typeError
 
 end Names
 
@@ -269,8 +312,10 @@ def call : Obj → Item → Res
   | .notO i roe, v => neg (absorb roe (call i v))
   | .selCtx k p roe, v =>
     match getRecursively names (v.context names.length) k with
-    | none => .ok false                                  -- `except LenaKeyError: return False`
-    | some sub => absorb roe (p sub)
+    | .keyError => .ok false                             -- `except LenaKeyError: return False`
+    | .valueError => .raise "LenaValueError"             -- raised outside the `try` of the predicate:
+    | .typeError => .raise "LenaTypeError"               --   propagates whatever `raise_on_error` is
+    | .found sub => absorb roe (p sub)
 /-- `all(f(val) for f in self._selectors)` -/
 def callAll : List Obj → Item → Res
   | [], _ => .ok true
@@ -304,6 +349,35 @@ def filterRun (o : Obj) : List Item → List Item × Option String
 
 /-- `Filter.fill_into(element, value)`: was `element.fill(value)` called, or what was raised -/
 def filterFillInto (o : Obj) (v : Item) : Res := call names o v
+
+/-- `Sequence(Filter(a), Filter(b)).run(flow)` drained by the caller.  Generators are lazy: a value that
+passes the first filter is tested by the second before the first sees the next value. -/
+def filterSeqRun (a b : Obj) : List Item → List Item × Option String
+  | [] => ([], none)
+  | v :: rest =>
+    match call names a v with
+    | .raise e => ([], some e)
+    | .ok false => filterSeqRun a b rest
+    | .ok true =>
+      match call names b v with
+      | .raise e => ([], some e)
+      | .ok false => filterSeqRun a b rest
+      | .ok true => let (ys, e) := filterSeqRun a b rest; (v :: ys, e)
+
+/-! ## `RunIf` (elements.py:118-222) -/
+
+/-- `RunIf(select, *args)`: an instance is kept, anything else becomes `Selector(select)` -/
+def runIfInit (s : Spec) : Option Obj := mkSelector true s
+
+/-- `RunIf.run(flow)` drained by the caller; `seq v` = the values `self._seq.run([v])` yields (the sequence
+itself is assumed not to raise) -/
+def runIfRun (o : Obj) (seq : Item → List Item) : List Item → List Item × Option String
+  | [] => ([], none)
+  | v :: rest =>
+    match call names o v with
+    | .raise e => ([], some e)
+    | .ok true => let (ys, e) := runIfRun o seq rest; (seq v ++ ys, e)
+    | .ok false => let (ys, e) := runIfRun o seq rest; (v :: ys, e)
 
 end Call
 
@@ -405,6 +479,13 @@ def depthOf (ps : List Path) : Nat := ps.foldr (fun p m => max p.length m) 0
 /-- fuel that always suffices (`Props.C15.make_fuel_suffices`) -/
 def makeFuel (I E : List Path) : Nat := max (depthOf I) (depthOf E) + 1
 
+/-- `_startswith(s1, s2)`: does the container `s2` start with `s1` (lines 47-59; the index loop as a
+recursion over both lists) -/
+def startsWith : List String → List String → Bool
+  | [], _ => true
+  | _ :: _, [] => false                                   -- `len(s2) < len(s1)`
+  | a :: r1, b :: r2 => if b ≠ a then false else startsWith r1 r2
+
 /-- `_split_key(key)`; `none` = `LenaValueError` (an empty subkey) -/
 def splitKey (key : String) : Option (List String) :=
   if key = "" then some [key]
@@ -466,5 +547,109 @@ def gbCompute (gs : Groups) : List (List Item) := gs.map (·.2)
 
 /-- `GroupBy.reset()`: `self.groups.clear()` -/
 def gbReset (_ : Groups) : Groups := []
+
+/-- `GroupBy.clear()` (deprecated alias: warns, then `self.groups.clear()`) -/
+def gbClear (gs : Groups) : Groups := gbReset gs
+
+/-- `GroupBy.update(val)` (deprecated alias: warns, then `self.fill(val)`) -/
+def gbUpdate (width : Nat) (t : Tree) (gs : Groups) (v : Item) : Groups := gbFill width t gs v
+
+/-! does a (sub-)context hold an object `json.dumps` cannot encode -/
+mutual
+def hasObjV : Val → Bool
+  | .leaf (.obj _) => true
+  | .leaf _ => false
+  | .dict l => hasObjL l
+def hasObjL : Slots → Bool
+  | [] => false
+  | none :: r => hasObjL r
+  | some v :: r => hasObjV v || hasObjL r
+end
+
+/-- `GroupBy.fill(val)` with its error branch (group_by.py:81-91): `to_string(key_dict)` raises
+`LenaValueError` when the *selected* sub-context holds an unserialisable object; the groups are then
+unchanged -/
+def gbFillR (width : Nat) (t : Tree) (gs : Groups) (v : Item) : Except String Groups :=
+  if hasObjL (groupKey width t v) then .error "LenaValueError" else .ok (gbFill width t gs v)
+
+/-- an argument of `GroupBy.__init__`: a string / tuple of strings, or something `"" in x` cannot be
+asked of (a callable, a number, `None`) -/
+inductive GbArg where
+  | arg (a : StrOrTuple)
+  | notIterable
+  deriving Repr
+
+inductive InitRes where
+  | made (m : Made)
+  | typeError             -- `except TypeError: raise LenaTypeError` (group_by.py:58-61)
+  deriving Repr
+
+/-- `GroupBy.__init__` for arguments of any kind -/
+def groupByInitAny (names : List String) : GbArg → GbArg → InitRes
+  | .arg g, .arg m => .made (groupByInit names g m)
+  | _, _ => .typeError
+
+/-! ## the deprecated `_GroupBy` (group_by.py:135-244): grouping by callables -/
+
+/-- outcome of a `group_by` callable on a value -/
+inductive KeyOut where
+  | ok (k : Leaf)
+  | keyError                -- `LenaKeyError` (a formatting string without its context key)
+  | raise (e : String)      -- any other exception
+  deriving Repr
+
+/-- Python truthiness of a scalar -/
+def Leaf.truthy : Leaf → Bool
+  | .none => false
+  | .bool b => b
+  | .int i => i != 0
+  | .str s => s != ""
+  | .obj _ => true
+
+/-- `_GroupBy(group_by)`: one callable, or a tuple of callables -/
+inductive OldGb where
+  | single (f : Item → KeyOut)
+  | tuple (fs : List (Item → KeyOut))
+
+/-- the loop of `tupgb` (lines 177-186): a `LenaKeyError` of a component gives the key `""` -/
+def tupKeys : List (Item → KeyOut) → Item → Except String (List Leaf)
+  | [], _ => .ok []
+  | f :: fs, v =>
+    match f v with
+    | .raise e => .error e
+    | .ok k =>
+      match tupKeys fs v with
+      | .ok ks => .ok (k :: ks)
+      | .error e => .error e
+    | .keyError =>
+      match tupKeys fs v with
+      | .ok ks => .ok (.str "" :: ks)
+      | .error e => .error e
+
+/-- `self._group_by(val)` as `fill` sees it: the key (a 1-list for a single callable, the tuple otherwise)
+or the exception that leaves `fill` -/
+def oldKey : OldGb → Item → Except String (List Leaf)
+  | .single f, v =>
+    match f v with
+    | .ok k => .ok [k]
+    | .keyError => .error "LenaValueError"          -- `except LenaKeyError: raise LenaValueError`
+    | .raise e => .error e
+  | .tuple fs, v =>
+    match tupKeys fs v with
+    | .error e => .error e
+    | .ok ks => if ks.any Leaf.truthy then .ok ks else .error "LenaValueError"   -- `if not any(group)`
+
+abbrev OldGroups := List (List Leaf × List Item)
+
+/-- `if key in self.groups: … append … else: … = [val]` for any key type -/
+def groupsAddG {K : Type} [DecidableEq K] (key : K) (v : Item) : List (K × List Item) → List (K × List Item)
+  | [] => [(key, [v])]
+  | (k, vs) :: rest => if key = k then (k, vs ++ [v]) :: rest else (k, vs) :: groupsAddG key v rest
+
+/-- `_GroupBy.fill(val)`; on an exception the groups are unchanged -/
+def oldFill (g : OldGb) (gs : OldGroups) (v : Item) : Except String OldGroups :=
+  match oldKey g v with
+  | .error e => .error e
+  | .ok k => .ok (groupsAddG k v gs)
 
 end Lena.C15
